@@ -752,14 +752,24 @@ fn c14_conversions(rep: &mut Report) {
     use mqtt_proto::{v5::ErrorV5, Error, Protocol};
     use std::io;
     let kinds = [io::ErrorKind::UnexpectedEof, io::ErrorKind::ConnectionReset, io::ErrorKind::TimedOut, io::ErrorKind::BrokenPipe, io::ErrorKind::WouldBlock, io::ErrorKind::Other, io::ErrorKind::WriteZero, io::ErrorKind::InvalidData, io::ErrorKind::ConnectionAborted, io::ErrorKind::NotConnected];
+    let kinds: Vec<io::ErrorKind> = kinds.iter().cloned().chain(po::READ_IOKINDS.iter().cloned()).collect();
     for k in kinds {
-        rep.cases += 1;
-        let e: Error = io::Error::from(k).into();
-        let back: io::Error = e.clone().into();
-        let e5: ErrorV5 = io::Error::from(k).into();
-        let ok = matches!(&e, Error::IoError(k2, _) if *k2 == k) && back.kind() == k && e5 == ErrorV5::Common(e.clone()) && (e.is_eof() == (k == io::ErrorKind::UnexpectedEof)) && e5.is_eof() == e.is_eof();
-        if !ok {
-            rep.fail("io-conversion", format!("io::ErrorKind::{:?}", k), format!("Error::from gives {:?}, back to io gives {:?}", e, back.kind()));
+        // every kind with the bare error and with 40 realistic messages (short, long, multi-byte at every alignment)
+        for salt in 0..41usize {
+            rep.cases += 1;
+            let mk = || if salt == 40 { io::Error::from(k) } else { crate::sio::fault(k, salt) };
+            let r = std::panic::catch_unwind(|| {
+                let e: Error = mk().into();
+                let back: io::Error = e.clone().into();
+                let e5: ErrorV5 = mk().into();
+                let ok = matches!(&e, Error::IoError(k2, _) if *k2 == k) && back.kind() == k && e5 == ErrorV5::Common(e.clone()) && (e.is_eof() == (k == io::ErrorKind::UnexpectedEof)) && e5.is_eof() == e.is_eof();
+                (ok, format!("Error::from gives {:?}, back to io gives {:?}", e, back.kind()))
+            });
+            match r {
+                Ok((true, _)) => {}
+                Ok((false, d)) => rep.fail("io-conversion", format!("io::ErrorKind::{:?} with message {:?}", k, mk().to_string()), d),
+                Err(_) => rep.fail("io-conversion", format!("io::ErrorKind::{:?} with message {:?}", k, mk().to_string()), "the conversion PANICKED".into()),
+            }
         }
     }
     let protos: Vec<Error> = vec![
@@ -816,6 +826,16 @@ pub fn c13(tier: &str, seed: u64, ops: Option<&[String]>) -> Report {
         if o.res.as_ref().err().map(|x| x.text.as_str()) != Some("UnexpectedProtocol(V500)") {
             rep.fail("cross-poll", format!("poll v3 {} - eof", hex(&e)), format!("poll gave {:?}", o.res.map(|x| x.0)));
         }
+        // … and as soon as name and level have arrived: every prefix that contains them
+        for cut in [hl + 7, hl + 8, (hl + 7 + e.len()) / 2, e.len().saturating_sub(1)] {
+            if cut >= hl + 7 && cut < e.len() {
+                rep.cases += 1;
+                let r = v3::Packet::decode(&e[..cut]);
+                if r != Err(expect.clone()) {
+                    rep.fail("cross-prefix", format!("dec v3 {}", hex(&e[..cut])), format!("v3 blocking decoder on the first {} of {} bytes of a v5 CONNECT (protocol name and level are in) gave {:?}", cut, e.len(), r.map(|o| o.map(|q| crate::v3text::show(&q)))));
+                }
+            }
+        }
         // continue natively on the rest
         let mut rest: &[u8] = &e[hl + 7..];
         let header = v5::Header::new_with(e[0], (e.len() - hl) as u32).unwrap();
@@ -853,6 +873,15 @@ pub fn c13(tier: &str, seed: u64, ops: Option<&[String]>) -> Report {
         let want = format!("UnexpectedProtocol({})", protocol(proto));
         if o.res.as_ref().err().map(|x| x.text.clone()) != Some(want) {
             rep.fail("cross-poll", format!("poll v5 {} - eof", hex(&e)), format!("poll gave {:?}", o.res.map(|x| x.0)));
+        }
+        for cut in [hl + plen, hl + plen + 1, (hl + plen + e.len()) / 2, e.len().saturating_sub(1)] {
+            if cut >= hl + plen && cut < e.len() {
+                rep.cases += 1;
+                let r = v5::Packet::decode(&e[..cut]);
+                if r != Err(expect.clone()) {
+                    rep.fail("cross-prefix", format!("dec v5 {}", hex(&e[..cut])), format!("v5 blocking decoder on the first {} of {} bytes of a v3 CONNECT (protocol name and level are in) gave {:?}", cut, e.len(), r.map(|o| o.map(|q| crate::v5text::show(&q)))));
+                }
+            }
         }
         let mut rest: &[u8] = &e[hl + plen..];
         match futures_lite::future::block_on(v3::Connect::decode_with_protocol(&mut rest, proto)) {
